@@ -1272,8 +1272,9 @@ def alphabet(name, tier, fam=None):
                  ["roundtrip", ["pickle", True]], ["roundtrip", ["inplace", True]]] + ([] if q else [["read", ["is_stable"]], ["read", ["energy"]]]), 3)
     if name == "cm":
         # low degrees keep one sequence (fresh System + point + manifold, twin answers memoised) at ~0.05 s
-        return ("cm", [{"mu_i": 0, "idx": 1, "deg": 3}],
-                [["set_degree", [4]], ["set_degree", [3]], ["q", ["compute", None]], ["q", ["hamiltonian", 4]], ["q", ["to_synodic_section", 0]],
+        # starts at the HIGHER degree so that "query (compiles the system at 4) -> lower the degree -> same query" fits in length 3
+        return ("cm", [{"mu_i": 0, "idx": 1, "deg": 4}],
+                [["set_degree", [3]], ["set_degree", [4]], ["q", ["compute", None]], ["q", ["hamiltonian", 3]], ["q", ["to_synodic_section", 0]],
                  ["q", ["to_synodic", 0]]] + ([] if q else [["q", ["degree", None]], ["roundtrip", ["pickle"]], ["set_degree", [5]]]), 3 if q else 4)
     if name == "system":
         letters = [["propagate", [0, 0, 0, 0, 1]], ["propagate", [0, 0, 0, 1, 1]], ["propagate", [0, 0, 0, 0, -1]]]     # base, other order, backward
